@@ -137,7 +137,70 @@ def unit_passthrough(args):
     return res
 
 
-UNITS = {'masters': unit_masters, 'specific': unit_specific, 'pass': unit_passthrough}
+def table_weights():
+    """every weight text get_implement_weight can return (string constants of its return statements)"""
+    import ast, inspect, textwrap
+    tree = ast.parse(textwrap.dedent(inspect.getsource(_impl().get_implement_weight)))
+    out = set()
+    for n in ast.walk(tree):
+        if isinstance(n, ast.Return) and isinstance(n.value, ast.Constant) and isinstance(n.value.value, str) and n.value.value:
+            out.add(n.value.value)
+    return sorted(out)
+
+
+def unit_modular(args):
+    """get_specific_event_code against the CONTRACT of its callee, for an ARBITRARY age-group label (any text) and gender text:
+    the implement table is consulted exactly once, with the caller's own event, gender and label, and the code is built from
+    the weight it reports (whatever weight of the table that is).  Together with the ground/masters obligations on
+    get_implement_weight this gives the clause for every label, not only those the library produces."""
+    ev, = args
+    from pyvc.strings import SOpaqueStr
+    im = _impl()
+    # the weights the table reports for this event (over both genders and every label the library produces, masters to V120):
+    # a subset of the string constants returned by get_implement_weight
+    W = sorted(set(w for g in 'MF' for lab in LIB_LABELS + ['V%02d' % a for a in range(35, 125, 5)] + ['U14', 'U16', 'U18']
+                   for w in [im.get_implement_weight(ev, g, lab)] if w) & set(table_weights()))
+    calls = []
+
+    def stub(e, g, lab):
+        w = W[ctx().choose(len(W), 'weight')]
+        calls.append((e, g, lab, w))
+        return w
+    f = instrument(im.get_specific_event_code, shadows={'get_implement_weight': stub})
+
+    def run():
+        c = ctx()
+        del calls[:]
+        lab = SOpaqueStr.fresh('label')
+        g = SOpaqueStr.fresh('gender')
+        c.extra = (g, lab)
+        c.called = True
+        return f(ev, g, lab), list(calls)
+
+    def post(p, c):
+        if p.outcome == 'exc':
+            c.oblige('get_specific_event_code/any-label-no-exception-when-the-table-has-a-weight', False, 'raises', meta=dict(exc=type(p.value).__name__))
+            return
+        code, cl = p.value
+        g, lab = c.extra
+        same = len(cl) == 1 and cl[0][0] == ev and cl[0][1] is g and cl[0][2] is lab
+        if len(cl) == 1 and not same and isinstance(cl[0][0], str) and cl[0][0] == ev:
+            # the same texts passed as other objects are fine: compare values
+            from pyvc.builtins_sym import sym_eq
+            from pyvc.values import zbool
+            same = z3.And(zbool(sym_eq(cl[0][1], g)), zbool(sym_eq(cl[0][2], lab)))
+        c.oblige('get_specific_event_code/table-consulted-once-with-the-callers-event-gender-label', same, 'post',
+                 meta=dict(calls=repr(cl)[:120]))
+        if len(cl) == 1:
+            ok, why = _code_ok(code, ev, cl[0][3]) if isinstance(code, str) else (False, 'symbolic code')
+            c.oblige('get_specific_event_code/code-built-from-the-reported-weight', ok, 'post', meta=dict(code=repr(code)[:40], weight=cl[0][3], why=why))
+
+    res = U.verify('get_specific_event_code[%s, any gender, any label]' % ev, run, post)
+    res['fn'] = f.describe()
+    return res
+
+
+UNITS = {'masters': unit_masters, 'specific': unit_specific, 'pass': unit_passthrough, 'modular': unit_modular}
 
 
 def _work(job):
@@ -171,6 +234,23 @@ def concretise(job, model):
             ok, obs = False, 'raises %s' % type(e).__name__
         rep.update(call='get_specific_event_code(%r,%r,%r)' % (ev, g, lab), observed=obs, required='a valid normalised throws code carrying the table weight')
         return rep, not ok
+    if kind == 'modular':
+        ev, = args
+        lab, g = model.get('label', ''), model.get('gender', '')
+        rep = dict(model=model, job=[kind, list(args)], call='get_specific_event_code(%r,%r,%r)' % (ev, g, lab))
+        try:
+            w = im.get_implement_weight(ev, g, lab)
+        except Exception as e:
+            w = None
+        if not w:
+            return dict(rep, observed='the table reports no weight for this label', required='-'), False
+        try:
+            code = im.get_specific_event_code(ev, g, lab)
+            ok, why = _code_ok(code, ev, w)
+            obs = [code, w, why]
+        except Exception as e:
+            ok, obs = False, 'raises %s' % type(e).__name__
+        return dict(rep, observed=obs, required='a valid normalised throws code carrying the table weight %s' % w), not ok
     if kind == 'pass':
         s = model.get('code', '')
         try:
@@ -269,6 +349,59 @@ def ground(run):
                     run.violation(name, dict(ground=['label', ev, g, lab], call='get_specific_event_code(%r,%r,%r)' % (ev, g, lab)), True)
 
 
+OTHER_LABELS = ['M%d' % a for a in range(35, 115, 5)] + ['W%d' % a for a in range(35, 115, 5)] + ['V%d' % a for a in (5, 30, 34, 36, 99, 101, 200)] + \
+    ['U12', 'U14', 'U16', 'U18', 'U19', 'U21', 'U10', 'sen', 'Sen', 'SEN ', ' SEN', 'v50', 'V050', 'V', 'U', 'X', '', 'MASTER', 'OPEN', 'JUN', 'W', 'M', 'Z99', '35', 'V35+']
+
+
+def ground_other(run, seed):
+    """bounded: arbitrary other labels (code and table must agree whenever the table reports a weight) and the pass-through
+    clause on every accepted event code that is not one of the five generic throws"""
+    import random
+    from pyvc import langgen as G
+    im = _impl()
+    rnd = random.Random(seed)
+    n = 0
+    bad = None
+    for ev in EVENTS:
+        for g in ('M', 'F', 'm', 'X', ''):
+            for lab in OTHER_LABELS + [''.join(rnd.choice('UVMWSEN0123456789 ') for _ in range(rnd.randrange(1, 5))) for _ in range(30)]:
+                n += 1
+                try:
+                    w = im.get_implement_weight(ev, g, lab)
+                except Exception:
+                    w = None
+                if not w:
+                    continue
+                try:
+                    code = im.get_specific_event_code(ev, g, lab)
+                    ok, why = _code_ok(code, ev, w)
+                    obs = [code, w, why]
+                except Exception as e:
+                    ok, obs = False, 'raises %s' % type(e).__name__
+                if not ok and bad is None:
+                    bad = ('standin/other-labels-code-carries-the-table-weight', dict(call='get_specific_event_code(%r,%r,%r)' % (ev, g, lab), observed=obs,
+                                                                                       model=dict(label=lab, gender=g), job=['modular', [ev]]))
+    lang = G.strings(real_module('athlib.codes').PAT_EVENT_CODE, 1)
+    bad2 = None
+    for code in lang:
+        if code in EVENTS:
+            continue
+        for g, lab in (('M', 'SEN'), ('F', 'V50'), ('F', 'U13')):
+            n += 1
+            try:
+                r = im.get_specific_event_code(code, g, lab)
+            except Exception as e:
+                r = 'raises %s' % type(e).__name__
+            if r != code and bad2 is None:
+                bad2 = ('standin/other-codes-pass-through-unchanged', dict(call='get_specific_event_code(%r,%r,%r)' % (code, g, lab), observed=r, required=code,
+                                                                           model=dict(code=code), job=['pass', []]))
+    for b in (bad, bad2):
+        if b:
+            run.violation(b[0], b[1], True)
+    run.bounded.append(dict(what='other labels (WMA M/W bands, lower case, junk) x gender texts; pass-through on the enumerated event-code language',
+                            bound='%d calls' % n, evaluations=n, distinct_nontrivial=n, decides='second line; undecided obligations'))
+
+
 def crosscheck(run, seed):
     """encoder cross-check: instrumented get_implement_weight on concrete labels == the real one"""
     import random
@@ -299,7 +432,10 @@ def main(tier, seed):
     run.assume('pyvc proxies/rewrites (str comparison = code-point lexicographic order; % formatting of ints)', 'z3 soundness',
                'masters band labels are "V%02d" % (5k), 35 <= 5k <= 10^6',
                'reading: U9/U11 have no implement in the table; ValueError is a permitted refusal there (DESIGN §6)')
-    J = [('masters', (ev, g)) for ev in EVENTS for g in 'MF'] + [('specific', (ev, g)) for ev in EVENTS for g in 'MF'] + [('pass', ())]
+    from pyvc.frames import frame_obligations
+    frame_obligations(run, [_impl().get_implement_weight, _impl().get_specific_event_code])
+    J = [('masters', (ev, g)) for ev in EVENTS for g in 'MF'] + [('specific', (ev, g)) for ev in EVENTS for g in 'MF'] + [('pass', ())] + \
+        [('modular', (ev,)) for ev in EVENTS]
     results = report.pool_map(_work, J)
 
     def on_refuted(res):
@@ -324,4 +460,5 @@ def main(tier, seed):
         U.absorb(run, res, on_refuted(res))
     ground(run)
     crosscheck(run, seed)
+    ground_other(run, seed)
     return run.finish()
